@@ -2,7 +2,7 @@
    satisfiable by concrete inputs (toy hash / signature functions, real tree algorithms). *)
 From Coq Require Import ZArith List String Bool Arith Lia.
 From GSP Require Import Base.Prelude SMT.Model SMT.Theory SMT.Sound Verify.Status Verify.Issuer
-  Verify.BJJ Verify.SMTProof Verify.Top78 Verify.Theory78 Verify.Complete78.
+  Verify.BJJ Verify.SMTProof Verify.Top78 Verify.Theory78 Verify.Complete78 Verify.Hex78.
 Import ListNotations.
 Open Scope list_scope.
 Open Scope Z_scope.
@@ -219,3 +219,18 @@ Example ex_top_ok :
   verify_proof_top (verify_smt poseidon q unit resolve_did id_from_did genesis_check)
     (mkvp true true true (Some (issue_smt poseidon unit Z true s cl tt))) = Ok tt.
 Proof. vm_compute. reflexivity. Qed.
+
+(* ---- decoding of hash-valued members (Hex78.v): little-endian, optional 0x, 32 bytes ---- *)
+Example ex_hex_le :
+  hash_from_hex "0100000000000000000000000000000000000000000000000000000000000000" = Some 1.
+Proof. vm_compute. reflexivity. Qed.
+Example ex_hex_0x_upper :
+  hash_from_hex "0xFF01000000000000000000000000000000000000000000000000000000000000" = Some 511.
+Proof. vm_compute. reflexivity. Qed.
+Example ex_hex_short : hexf_of_str (Some "0100"%string) = HBad.
+Proof. vm_compute. reflexivity. Qed.
+Example ex_hex_odd :
+  hexf_of_str (Some "010000000000000000000000000000000000000000000000000000000000000"%string) = HBad.
+Proof. vm_compute. reflexivity. Qed.
+Example ex_hex_absent : hexf_of_str None = HNil.
+Proof. reflexivity. Qed.
